@@ -99,7 +99,7 @@ def evo_text(ev):
     return "'%s+%s*t'" % (fmt_v(ev[1]), repr(ev[2] * TU / VUNIT))
 
 
-def mtest_input(lib, hyp, pol, load, times, maxsub, dyn, mindt, accel, maxdt=0):
+def mtest_input(lib, hyp, pol, load, times, maxsub, dyn, mindt, accel, maxdt=0, itmax=0):
     L = ["@Author vf;", "@ModellingHypothesis '%s';" % hyp, "@Behaviour<generic> '%s' 'VfMTProbe';" % lib,
          "@MaterialProperty<constant> 'young' 128.;", "@MaterialProperty<constant> 'hard' 8.;",
          "@ExternalStateVariable 'Temperature' 293.15;", "@ExternalStateVariable<function> 'tt' 't';",
@@ -118,6 +118,8 @@ def mtest_input(lib, hyp, pol, load, times, maxsub, dyn, mindt, accel, maxdt=0):
         L.append("@MaximalTimeStep %s;" % fmt_t(maxdt))
     if accel:
         L.append("@AccelerationAlgorithm '%s';" % accel)
+    if itmax:
+        L.append("@MaximumNumberOfIterations %d;" % itmax)
     L += ["@OutputFrequency 'EveryPeriod';", "@PrintLagrangeMultipliers true;", "@OutputFilePrecision 17;"]
     return "\n".join(L) + "\n"
 
@@ -259,6 +261,93 @@ def run_case(ctx, lib, i, case, env):
     return ev, info, crashed
 
 
+# ---- the whole log of a run as a trace of MTestSystem.tla -------------------------------------------------------------------
+ITMAX_SYS = 8
+FRACTIONS = {0.5: (1, 2), 0.25: (1, 4), 0.375: (3, 8), 0.125: (1, 8)}
+
+
+def cls3(x, eps):
+    if x != x or x in (float("inf"), float("-inf")):
+        return 2
+    return 0 if x < eps * (1 - 1e-5) else 2 if x > eps * (1 + 1e-5) else 1
+
+
+def system_events(case, pol, out, rc):
+    c = case["cf"]
+    ev = [{"e": "Run", "times": c["times"], "maxsub": c["maxsub"], "dyn": 1 if c["dyn"] else 0, "mindt": c["mindt"],
+           "maxdt": c.get("maxdt", 0), "pol": pol, "itmax": ITMAX_SYS}]
+
+    def ticks(x):
+        v = float(x) * TU
+        return int(round(v)) if abs(v - round(v)) < 1e-9 else -1
+
+    for line in out.splitlines():
+        m = re.match(r"resolution from (\S+) to (\S+)", line)
+        if m:
+            a, b = ticks(m.group(1)), ticks(m.group(2))
+            ev.append({"e": "Res", "t": a, "dt": (b - a) if a >= 0 and b >= 0 else -1})
+            continue
+        m = re.match(r"iteration (\d+) : (\S+) (\S+) \(", line)
+        if m:
+            ev.append({"e": "Iter", "k": int(m.group(1)), "ne": cls3(float(m.group(2)), EEPS), "nr": cls3(float(m.group(3)), SEPS)})
+            continue
+        if line.startswith("convergence, after one iteration"):
+            ev.append({"e": "Conv", "k": 1})
+            continue
+        m = re.match(r"convergence, after (\d+) iterations", line)
+        if m:
+            ev.append({"e": "Conv", "k": int(m.group(1))})
+            continue
+        if line.startswith("No convergence, the following criteria were not met"):
+            ev.append({"e": "NoConv"})
+        elif "behaviour intregration failed" in line:
+            ev.append({"e": "BFail"})
+        elif line.startswith("Dividing time step by two"):
+            ev.append({"e": "Halve"})
+        else:
+            m = re.match(r"Reducing time step by a factor: (\S+)", line)
+            if m:
+                n, d = FRACTIONS.get(float(m.group(1)), (-1, 1))
+                ev.append({"e": "Reduce", "n": n, "d": d})
+                continue
+            m = re.match(r"Increasing time step by a factor: (\S+)", line)
+            if m:
+                ev.append({"e": "Keep"} if float(m.group(1)) == 1.0 else {"e": "Grow"})
+    ev.append({"e": "End", "rc": 0 if rc == 0 else 1})
+    return ev
+
+
+def run_system_case(ctx, lib, i, case, env):
+    """run A again with the complete log (--verbose=level2) and a small iteration budget"""
+    c = case["cf"]
+    d = ctx.path("sys/%05d" % i)
+    os.makedirs(d, exist_ok=True)
+    hyp = list(HYPS)[i % len(HYPS)]
+    pol = POLICIES[(i // 4) % len(POLICIES)]
+    load = loading(i // 3, hyp, c["times"])
+    dyn = bool(c["dyn"])
+    plan = plan_of(case["hist"], dyn)
+    open(os.path.join(d, "s.mtest"), "w").write(mtest_input(lib, hyp, pol, load, c["times"], c["maxsub"], dyn, c["mindt"], None,
+                                                             c.get("maxdt", 0), itmax=ITMAX_SYS))
+    r = core.sh(["timeout", "-s", "KILL", "60", "mtest", "--verbose=level2", "s.mtest"], env=dict(env, VF_PLAN=plan, VF_PROBE_LOG=os.path.join(d, "s.log")),
+                cwd=d, timeout=90)
+    return system_events(case, pol, r.stdout or "", r.returncode), {"case": i, "dir": d, "plan": plan, "cf": c, "hyp": hyp, "policy": pol, "rc": r.returncode}
+
+
+
+def balanced(items, n, key=lambda c: c["cf"]):
+    """regular sample of about n items, the same number for every input file (the behaviours of the dynamic configurations
+    are far more numerous than those of the fixed time step ones)"""
+    groups = {}
+    for it in items:
+        groups.setdefault(json.dumps(key(it), sort_keys=True), []).append(it)
+    per = max(1, n // len(groups))
+    out = []
+    for g in groups.values():
+        out += g[:: max(1, len(g) // per)][:per]
+    return out
+
+
 def replay(ctx, obligations, sig_prefix):
     """obligations: 'C48' or 'C50'. Returns the coverage dictionary; records the violations in ctx."""
     lib = build_probe(ctx)
@@ -273,12 +362,20 @@ def replay(ctx, obligations, sig_prefix):
         raise Broken("the model of the pinned clamp (slack of one time unit) is not rejected: NoOvershoot is vacuous")
     st += mc.distinct + pinned.distinct
     tr += mc.generated + pinned.generated
+    sysmc = ctx.tlc("mtest/MTestSystemMC", cfg="MTestSystem_MC.cfg", workers=8, timeout=1500)
+    if not sysmc.ok:
+        ctx.violation("model:system:%s" % sysmc.violated, "MTestSystem.tla (time loop x Newton loop) violates %s" % sysmc.violated, None)
+    sysmut = ctx.tlc("mtest/MTestSystemMC", cfg="MTestSystem_mutant.cfg", workers=4)
+    if sysmut.violated != "AcceptedOnlyIfTested":
+        raise Broken("the time loop that accepts a step whatever the Newton loop says is not rejected: AcceptedOnlyIfTested is vacuous")
+    st += sysmc.distinct + sysmut.distinct
+    tr += sysmc.generated + sysmut.generated
     cases, g = gen_behaviours(ctx)
     st += g.distinct
     tr += g.generated
     # every behaviour of the model is a candidate; a regular sample is replayed (two mtest runs and a share of a TLC
     # validation per behaviour): 240 in the quick tier, 6000 in the thorough one
-    cases = cases[:: max(1, len(cases) // (6000 if ctx.thorough else 240))]
+    cases = balanced(cases, 6000 if ctx.thorough else 240)
     env = core.run_env()
     results = [None] * len(cases)
     with cf.ThreadPoolExecutor(max_workers=14) as ex:
@@ -342,7 +439,44 @@ def replay(ctx, obligations, sig_prefix):
         if len(ctx.violations) > 25:
             ctx.note("more than 25 violations: validation stopped")
             break
-    return {"states": st, "transitions": tr, "traces_validated_against_impl": ntr, "events_validated": nev,
+    # ---- the complete logs (time loop and Newton iterations) of a sample of the runs against MTestSystem.tla ----
+    nsys = nsysev = 0
+    # a sample balanced over the input files (the behaviours of the dynamic configurations are far more numerous)
+    sample = balanced(list(range(len(cases))), 160 if ctx.thorough else 40, key=lambda j: cases[j]["cf"])
+    with cf.ThreadPoolExecutor(max_workers=14) as ex:
+        sysruns = list(ex.map(lambda j: run_system_case(ctx, lib, j, cases[j], env), sample))
+    syscfg = open(os.path.join(core.SPEC, "mtest/MTestSystemTrace.cfg")).read()
+    kinds = set()
+    for j in range(0, len(sysruns), 20):
+        chunk = sysruns[j:j + 20]
+        while chunk:
+            events = [e for ev, _ in chunk for e in ev]
+            kinds |= {e["e"] for e in events}
+            v = core.validate_trace(ctx, "mtest/MTestSystemTrace", syscfg, events, name="sys", dfs=True)
+            nsys += len(chunk)
+            nsysev += len(events)
+            if v["accepted"]:
+                break
+            pos, bad = 0, len(chunk) - 1
+            for n, (ev, _) in enumerate(chunk):
+                if v["maxl"] <= pos + len(ev):
+                    bad = n
+                    break
+                pos += len(ev)
+            ev, info = chunk[bad]
+            kk = v["maxl"] - pos
+            at = ev[kk - 1] if 0 < kk <= len(ev) else None
+            tf = ctx.path("sys-rejected-%05d.ndjson" % info["case"])
+            core.write_ndjson(tf, ev)
+            sig = "%s:system:%s" % (sig_prefix, ("invariant:" + v["violated"]) if v["violated"] else "rejected:" + (at or {}).get("e", "?"))
+            ctx.violation(sig, "the log of a real mtest run is not a behaviour of MTestSystem.tla (%s; event %d: %s) - input %s/s.mtest, plan '%s', %s / %s" % (
+                v["violated"] or "rejected", kk, json.dumps(at)[:200], info["dir"], info["plan"], info["hyp"], info["policy"]),
+                dict(info, trace=tf, stopped_at=kk, event=at))
+            chunk = chunk[bad + 1:]
+    if not {"Res", "Iter", "Conv", "BFail", "NoConv", "Halve", "Reduce", "Keep", "End"} <= kinds and not ctx.violations:
+        raise Broken("the system logs do not exercise every kind of event: %s" % sorted(kinds))
+    return {"states": st, "transitions": tr, "traces_validated_against_impl": ntr + nsys, "events_validated": nev + nsysev,
+            "complete_logs_validated_against_MTestSystem": nsys, "events_of_complete_logs": nsysev,
             "behaviours_replayed": len(cases), "behaviours_with_failed_attempts": nfail, "behaviours_aborting": nthrow,
             "samples": samples, "model_of_pinned_clamp_rejected_with": pinned.violated,
             "hypotheses": list(HYPS), "prediction_policies": POLICIES}
